@@ -58,12 +58,15 @@ pub enum Ev {
     /// issued so far
     #[serde(rename = "checkpoint")]
     Checkpoint { t: u64 },
+    /// the caller of the node's next operation gives up after `after_ms` (drops the future)
+    #[serde(rename = "cancel_next")]
+    CancelNext { t: u64, node: u8, after_ms: u64 },
 }
 
 impl Ev {
     pub fn t(&self) -> u64 {
         match self {
-            Ev::Op { t, .. } | Ev::Hold { t, .. } | Ev::Release { t, .. } | Ev::Crash { t, .. } | Ev::Restart { t, .. } | Ev::View { t, .. } | Ev::Replay { t, .. } | Ev::ClockJump { t, .. } | Ev::Move { t, .. } | Ev::PartialBulk { t, .. } | Ev::Ghosts { t, .. } | Ev::Checkpoint { t } => *t,
+            Ev::Op { t, .. } | Ev::Hold { t, .. } | Ev::Release { t, .. } | Ev::Crash { t, .. } | Ev::Restart { t, .. } | Ev::View { t, .. } | Ev::Replay { t, .. } | Ev::ClockJump { t, .. } | Ev::Move { t, .. } | Ev::PartialBulk { t, .. } | Ev::Ghosts { t, .. } | Ev::Checkpoint { t } | Ev::CancelNext { t, .. } => *t,
         }
     }
 }
@@ -214,6 +217,7 @@ fn validate(sc: &Scenario) -> Result<(), String> {
             Ev::Replay { from, .. } => ids.contains(from),
             Ev::Ghosts { node, ghosts, .. } => ids.contains(node) && ghosts.iter().all(|(g, at)| !ids.contains(g) && ids.contains(at) && at != node),
             Ev::Checkpoint { .. } => sc.hours,
+            Ev::CancelNext { node, .. } => ids.contains(node),
         };
         if !ok {
             return Err("event refers to an unknown node".into());
@@ -283,7 +287,7 @@ fn validate_timely(sc: &Scenario) -> Result<(), String> {
                 }
                 busy_until = busy_until.max(*t);
             },
-            Ev::Replay { .. } | Ev::Move { .. } | Ev::Ghosts { .. } => return Err("event kind not used in the hours family".into()),
+            Ev::Replay { .. } | Ev::Move { .. } | Ev::Ghosts { .. } | Ev::CancelNext { .. } => return Err("event kind not used in the hours family".into()),
             Ev::Checkpoint { t } => {
                 if !open.is_empty() || *t < busy_until + 8 * 60_000 {
                     return Err("quiet point too close to a fault or an operation".into());
@@ -405,6 +409,10 @@ pub fn run_cluster(sc: &Scenario, prop: &str) -> Result<RunResult, String> {
                     st.st.lock().arm_partial_bulk = Some(*k);
                 }
                 out.fault("bulk_write_armed_to_fail_partway");
+            },
+            Ev::CancelNext { node, after_ms, .. } => {
+                cl.shared.borrow_mut().cancel_next.insert(*node, *after_ms);
+                out.fault("caller_gives_up_after_a_while");
             },
             Ev::Checkpoint { .. } => {
                 let sh = cl.shared.borrow();
@@ -1069,6 +1077,17 @@ pub fn gen_cluster_scenario(rng: &mut rand::rngs::SmallRng, k: &GenKnobs) -> Sce
             let level = levels[rng.gen_range(0..levels.len())];
             let keep = rng.gen_range(0..idv.len() / 3);
             events.push(Ev::Op { t: t + rng.gen_range(1_100..4_000), node: *ids.choose(rng).unwrap(), spec: OpSpec { kind: "del_many".to_string(), ks, ids: idv[keep..].to_vec(), level: level.to_string(), dup: false, empty: false } });
+        }
+    }
+    // callers that give up: the future of an operation is dropped after a few ms, at whatever
+    // await point it has reached (timestamp taken, local apply, replication under way)
+    if rng.gen_bool(0.25) {
+        let op_times: Vec<(u64, u8)> = events.iter().filter_map(|e| if let Ev::Op { t, node, .. } = e { Some((*t, *node)) } else { None }).collect();
+        for (t, node) in op_times {
+            if rng.gen_bool(0.2) {
+                let after_ms = *[0u64, 1, 2, 3, 5, 8, 13, 30, 80, 250].choose(rng).unwrap();
+                events.push(Ev::CancelNext { t: t.saturating_sub(1), node, after_ms });
+            }
         }
     }
     // a peer is known under a second node id on the same address for a while (a process restarted
